@@ -538,6 +538,11 @@ func (h *handler1) handleConnect(ctx context.Context, snConnect *snPkts1.Connect
 		return h.snSend(snPkts1.NewConnack(snPkts1.RC_ACCEPTED))
 	}
 
+	// Cancel previous transaction, if any.
+	if oldTransaction, ok := h.transactions.GetByType(snPkts.CONNECT); ok {
+		oldTransaction.Fail(Cancelled)
+	}
+
 	// The MQTT-SN specification does not explicitly forbid zero keepalive
 	// (meaning "no keepalive" in MQTT) but without keepalive we
 	// would not be able to detect lost clients because UDP does not
@@ -570,10 +575,6 @@ func (h *handler1) handleConnect(ctx context.Context, snConnect *snPkts1.Connect
 		mqConnect.Username = *h.cfg.MqttUser
 	}
 
-	// Cancel previous transaction, if any.
-	if oldTransaction, ok := h.transactions.GetByType(snPkts.CONNECT); ok {
-		oldTransaction.Fail(Cancelled)
-	}
 	transaction := newConnectTransaction(ctx, h, h.cfg.AuthEnabled, mqConnect)
 	h.transactions.StoreByType(snPkts.CONNECT, transaction)
 	return transaction.Start(ctx)
